@@ -24,11 +24,15 @@ FORBIDDEN = re.compile(r"\b(Admitted|admit|Axiom|Axioms|Parameter|Parameters|Con
 
 
 class Stream:
-    def __init__(self, name, suite, checker, cases, note="", nontrivial=None):
+    def __init__(self, name, suite, checker, cases, note="", nontrivial=None, project=None):
         self.name, self.suite, self.checker = name, suite, checker
         self.cases = cases          # list of sx strings (without the suite prefix)
         self.note = note
         self.nontrivial = nontrivial  # optional predicate on (case, result) strings
+        # optional str -> str applied to the IMPLEMENTATION's result before it is diffed against the model's
+        # (the checker still sees the full result).  For suites whose results contain values that the model
+        # cannot predict (unseeded RNG draws): the projection keeps the deterministic part.  Default: identity.
+        self.project = project or (lambda r: r)
 
 
 def die(msg, code=2):
@@ -196,7 +200,7 @@ def _limits():
     resource.setrlimit(resource.RLIMIT_CORE, (0, 0))
 
 
-def run_impl(lines, timeout=900):
+def run_impl(lines, timeout=240):
     """lines: '<suite> <sx>'; routed to the debug or release binary by the case's profile field."""
     idx = {0: [], 1: []}
     for i, l in enumerate(lines):
@@ -213,15 +217,19 @@ def run_impl(lines, timeout=900):
 
 
 def _resolve_aborts(binary, lines, res, timeout):
+    """cases behind a worker that died (abort, OOM, hang) are re-run in fresh workers, a few rounds, short timeout;
+    what is still unattributed afterwards is reported as (9 -100)"""
     pending = [i for i, r in enumerate(res) if r == "(8)"]
     rounds = 0
-    while pending and rounds < 50:
+    while pending and rounds < 8:
         rounds += 1
         sub = [lines[i] for i in pending]
-        got = _run_sharded(binary, sub, timeout)
+        got = _run_sharded(binary, sub, min(timeout, 60))
         for i, g in zip(pending, got):
             res[i] = g
         pending = [i for i, r in enumerate(res) if r == "(8)"]
+    for i in pending:
+        res[i] = "(9 -100)"
     return res
 
 
@@ -296,9 +304,9 @@ class Ctx:
         p = self.write_replay("nofail" if nofail else "viol", obj)
         self.violations.append((what, p, nofail))
 
-    def known_key_of(self, suite, case, observed):
+    def known_key_of(self, suite, case, observed, stream=None):
         """KnownClass of a (case, observed result), computed by the extracted Coq predicate (0 = none)."""
-        ks = getattr(self.mod, "KNOWN_SUITE", {}).get(suite)
+        ks = getattr(stream, "known_suite", None) or getattr(self.mod, "KNOWN_SUITE", {}).get(suite)
         if not ks:
             return 0
         if getattr(self.mod, "KNOWN_ARGS", "case") == "pair":
@@ -380,7 +388,7 @@ def evaluate_stream(ctx, st):
             die("malformed case reached a suite (generator bug): %s %s" % (st.suite, c[:300]))
         if v == "0":
             fails.append((c, i, m))
-        elif i != m:
+        elif st.project(i) != m:
             disag.append((c, i, m, v))
         if v != "2":
             ctx.nontrivial.add(hashlib.sha1((st.suite + c).encode()).digest()[:8])
@@ -393,7 +401,7 @@ def evaluate_stream(ctx, st):
     # property predicate fails on the implementation's own output -> violation (or a listed finding)
     seen_keys = set()
     for c, i, m in fails[:40]:
-        key = ctx.known_key_of(st.suite, c, i)
+        key = ctx.known_key_of(st.suite, c, i, st)
         kf = next((k for k in ctx.known if k.get("class_id") == key and k["status"] == "known"), None) if key else None
         if kf:
             ctx.known_hits[kf["key"]] = kf["what"]
@@ -402,12 +410,12 @@ def evaluate_stream(ctx, st):
             continue
         seen_keys.add(("pf", st.suite))
 
-        def still(cand, suite=st.suite, chk=st.checker):
+        def still(cand, suite=st.suite, chk=st.checker, st=st):
             o = run_impl(["%s %s" % (suite, cand)])[0]
             if o == BAD:
                 return False
             v = run_checker(chk, [cand], [o])[0]
-            return v == "0" and not ctx.known_key_of(suite, cand, o)
+            return v == "0" and not ctx.known_key_of(suite, cand, o, st)
         small = shrink(c, still)
         o = run_impl(["%s %s" % (st.suite, small)])[0]
         mo = resolve_needs(["%s %s" % (st.suite, small)])[0][0]
@@ -419,10 +427,10 @@ def evaluate_stream(ctx, st):
     if disag:
         c, i, m, v = disag[0]
 
-        def still2(cand, suite=st.suite):
+        def still2(cand, suite=st.suite, proj=st.project):
             o = run_impl(["%s %s" % (suite, cand)])[0]
             mo = resolve_needs(["%s %s" % (suite, cand)])[0][0]
-            return o != BAD and o != mo
+            return o != BAD and proj(o) != mo
         small = shrink(c, still2)
         ctx.pending_nofail = getattr(ctx, "pending_nofail", [])
         ctx.pending_nofail.append({
@@ -497,6 +505,27 @@ def finish(ctx, proof):
         sys.exit(1)
     print("OK property=%s tier=%s evaluations=%d theorems=%d wall=%.1fs" % (ctx.prop, ctx.tier, ctx.evaluations, proof["obligations"], wall))
     sys.exit(0)
+
+
+def registry_names():
+    """(names registered by InstructionSet::load(), names registered in the model)"""
+    dec = lambda r: set("".join(chr(c) for c in n) for n in sx_parse(r)[1])
+    return dec(run_impl(["names (0)"])[0]), dec(run_model(["names (0)"])[0])
+
+
+def check_registry(ctx, prefix=None):
+    """the model's registry and the implementation's must register the same instruction names"""
+    impl, model = registry_names()
+    if prefix:
+        impl = set(n for n in impl if n.startswith(prefix)); model = set(n for n in model if n.startswith(prefix))
+    ctx.evaluations += 1
+    ctx.stats["registry-names"] = {"cases": 1, "implementation": len(impl), "model": len(model),
+                                   "note": "set of registered instruction names, implementation vs model"}
+    if impl != model:
+        ctx.violation("the instruction registry changed: names differ between implementation and model", {
+            "property": ctx.prop, "kind": "correspondence-broken", "suite": "names", "case": "(0)",
+            "only_in_implementation": sorted(impl - model), "only_in_model": sorted(model - impl),
+            "no_longer_checks": "registry correspondence (suite 'names')"}, nofail=True)
 
 
 TRUSTED_COMMON = [
